@@ -60,9 +60,13 @@ Scan(args, i, spec, ops, pairs) ==
 \* ---------------------------------------------------------------- the property on one command
 \* args: the argument vector without argv[0]; everything else: plain strings.
 TargetStr(user, host) == IF user = "" THEN host ELSE user \o "@" \o host
+\* the user may travel in the target ("user@host") or as the value of ssh's -l option
+LoginPair(pairs, user) == \E i \in DOMAIN pairs : Len(pairs[i]) = 2 /\ Str(pairs[i][1]) = "-l" /\ Str(pairs[i][2]) = user
 SshOK(args, user, host, cmd) ==
   LET r == Scan(args, 1, SshSpec, <<>>, <<>>) IN
-  Len(r.ops) = 2 /\ Str(r.ops[1]) = TargetStr(user, host) /\ Str(r.ops[2]) = cmd
+  /\ Len(r.ops) = 2 /\ Str(r.ops[2]) = cmd
+  /\ \/ Str(r.ops[1]) = TargetStr(user, host)
+     \/ (user # "" /\ Str(r.ops[1]) = host /\ LoginPair(r.pairs, user))
 ScpOK(args, user, host, src, remote) ==
   LET r == Scan(args, 1, ScpSpec, <<>>, <<>>) IN
   Len(r.ops) = 2 /\ Str(r.ops[1]) = src /\ Str(r.ops[2]) = TargetStr(user, host) \o ":" \o remote
